@@ -130,7 +130,7 @@ func usage() {
 		names = append(names, k)
 	}
 	sort.Strings(names)
-	fmt.Fprintf(os.Stderr, "usage: h2v dump-tables <dir> | h2v fingerprints <repo dir> | h2v gen <suite> <seed> <n> <tier> <prefix> | h2v replay <suite> <case line>\nsuites: %s\n", strings.Join(names, " "))
+	fmt.Fprintf(os.Stderr, "usage: h2v dump-tables <dir> | h2v fingerprints <repo dir> | h2v probe <seed> <rounds> | h2v gen <suite> <seed> <n> <tier> <prefix> | h2v replay <suite> <case line>\nsuites: %s\n", strings.Join(names, " "))
 	os.Exit(2)
 }
 
@@ -139,6 +139,13 @@ func main() {
 		usage()
 	}
 	switch os.Args[1] {
+	case "probe":
+		if len(os.Args) != 4 {
+			usage()
+		}
+		seed, _ := strconv.ParseUint(os.Args[2], 10, 64)
+		n, _ := strconv.Atoi(os.Args[3])
+		runProbes(seed, n)
 	case "fingerprints":
 		if len(os.Args) != 3 {
 			usage()
